@@ -18,18 +18,18 @@ RULE = ("corpus (test-suite style integer-sample travel times, the C19.d tail wi
         "shift vectors with negative/zero/positive entries (exhaustive over {-2..2}^<=3, random up to length 6), every clip, add/sub. "
         "distinct = hash of all arguments; non-trivial = record length >= 3 and not constant")
 TIE = ("correspondence (hand models Model/Surface.lean, Model/TimeShift.lean on exact rationals; np.interp from Prelude/Interp.lean)")
-NOT_PROVED = ["IEEE rounding of the interpolation/trapezoid pipeline (measured, budget 1e-9) and of the quotients 2*tt/dt, tt/dt, stt/dt next "
-              "to an integer: the impl truncates the binary64 quotient; inputs where a float and an exact decision differ are counted and "
+NOT_PROVED = ["IEEE rounding of the interpolation/trapezoid pipeline (measured, budget 1e-9) and of the quotients 2*tt/dt, tt/dt, stt/dt next ",
+              "to an integer: the impl truncates the binary64 quotient; inputs where a float and an exact decision differ are counted and ",
               "checked by the float re-computation oracles only",
-              "reductions given as arrays whose length is neither 1 nor len(travel_times) (NumPy broadcasting errors) are compared as error "
+              "mixed scalar/array reductions and Python lists (TypeError/IndexError, or a per-sample factor when up_red is scalar and len(down_red) == padded width): outside the model's Red type, not generated; array reductions of every length are proved (broadcast = written-out rows; ValueError / IndexError kinds: Props/C19RedShapes)",
               "kinds only",
-              "start=True with int(stt/dt) - int(tt/dt) > npts: the code's values[i, :npts - sis] becomes a Python negative slice (raises or "
+              "start=True with int(stt/dt) - int(tt/dt) > npts: the code's values[i, :npts - sis] becomes a Python negative slice (raises or ",
               "returns zeros depending on the padded width); outside the stated domain, compared with the model only",
-              "DESIGN's original C19.d tail clause ('batch row = single result extended by its final value') is false of code and model; "
+              "DESIGN's original C19.d tail clause ('batch row = single result extended by its final value') is false of code and model; ",
               "replaced by prefix equality + trimmed equality + constant tail one sample later (proved)"]
 
 
-PROP_MODULES = ['C19', 'C19Gen']
+PROP_MODULES = ['C19', 'C19Gen', 'C19RedShapes']
 
 def _err(res):
     """SignalProcessingWarning has no ErrKind on the wire: the model reports Other"""
@@ -870,3 +870,15 @@ def run(ctx):
 
 # evidence: how the model is tied to the source on every run (as built, supersedes the value above)
 TIE = 'translator (fns/time_shift.py, surface.py -> Gen/TimeShift; Props/C19Gen) + correspondence (exact on dyadic-safe inputs)'
+
+
+# ---- round-7 deliveries (lw_small / tw_single3): further correspondences of models with new theorems -------------------------
+import _lw_small as _LW  # noqa: E402
+from _single3_corr import corr_single3  # noqa: E402
+_run_main_r7 = run
+
+
+def run(ctx):
+    _run_main_r7(ctx)
+    _LW.corr_red_shapes(ctx)
+    ctx.flush()
